@@ -1,7 +1,7 @@
 (* coap_uri_into_optlist = Uri-Host/Uri-Port decision ++ specified Uri-Path ++ specified Uri-Query,
    appended to whatever was in the chain. *)
 From LibcoapV Require Import Base.Tactics Base.Bytes Base.BytesProofs Wire.OptCodec Uri.Uri Uri.Split
-  Uri.Spec Uri.SegProofs Uri.PathProofs Uri.Into.
+  Uri.Spec Uri.SegProofs Uri.PathProofs Uri.SplitProofs Uri.Into.
 Local Open Scope Z_scope.
 
 Lemma uri_if_len {A B} (l : list A) (x y : B) :
@@ -64,4 +64,34 @@ Lemma uri_default_port_no_option name dport ponly sch :
 Proof.
   unfold uri_schemes. cbn [In].
   intros [E|[E|[E|[E|[E|[E|[E|[E|[]]]]]]]]]; injection E as <- <- <- <-; reflexivity.
+Qed.
+
+(* end to end: a string of the URI grammar goes through coap_split_uri and coap_uri_into_optlist
+   to exactly the options RFC 7252 6.4 prescribes *)
+Definition uri_to_options (caps : uri_caps) (s : bytes) (dst : option bytes) (create : bool)
+           (chain : list opt) : uri_res (option (list opt)) :=
+  ulet r <- uri_split caps false s ;;
+  match r with
+  | USplit u => ulet c <- uri_into_optlist u dst create chain ;; UOk (Some c)
+  | UErr _ => UOk None
+  end.
+
+Theorem uri_to_options_spec caps s u dst create chain po qo :
+  uri_grammar caps false s u ->
+  uri_spec_path_opts (up_path u) = Some po -> uri_spec_query_opts (up_query u) = Some qo ->
+  uri_to_options caps s dst create chain =
+  UOk (Some (chain ++ uri_hostport_opts u dst create ++ uri_tag 11 po ++ uri_tag 15 qo)).
+Proof.
+  intros G Hp Hq. unfold uri_to_options.
+  apply uri_split_iff_grammar in G. rewrite G. cbn [uri_bind].
+  rewrite (uri_into_optlist_spec u dst create chain po qo Hp Hq). reflexivity.
+Qed.
+
+(* a string outside the grammar yields no options at all *)
+Theorem uri_to_options_reject caps s dst create chain :
+  (forall u, ~ uri_grammar caps false s u) -> uri_to_options caps s dst create chain = UOk None.
+Proof.
+  intros N. unfold uri_to_options. rewrite uri_split_is_pure. cbn [uri_bind].
+  destruct (uri_split_pure caps false s) as [u|rc] eqn:E; [|reflexivity].
+  exfalso. apply (N u). apply uri_split_pure_iff. exact E.
 Qed.
